@@ -173,6 +173,42 @@ def _run_lib(api, system, bath, rho0, start, dt, nsteps, params, unique,
     return dyn
 
 
+def _attribute_to_tail_glitch(corr, p, epsrel, dt, nsteps, tau, spread, err,
+                              bound):
+    """Evidence-based attribution of a state deviation to the open finding
+    inf-tail-quad-glitch (C12): some eta(t) on the time grid of this very
+    computation is wrong in the library, the harness' replica of the pinned
+    integrand with the same scipy.quad calls reproduces the library value
+    bitwise-close, the same integrand with the tail integrated on finite
+    pieces reproduces the independent reference, AND the size of the state
+    deviation is what that eta error explains. Otherwise the deviation keeps
+    its own mechanism."""
+    from vp.mon import quadtwin
+    tw = quadtwin.Twin(corr, p, epsrel)
+    times = [k * dt for k in range(1, nsteps + 2)]
+    if tau not in (None, 0.0) and np.isfinite(tau):
+        times += [k * dt + tau for k in range(1, nsteps + 2)]
+    worst = None
+    for t in times:
+        lib = corr.eta_function(t, epsrel=epsrel)
+        refv = rbath.eta(p, t)
+        e = abs(lib - refv)
+        if worst is None or e > worst[1]:
+            worst = (t, e, lib, refv)
+    t, e, lib, refv = worst
+    if e == 0.0:
+        return "closed-form-deviation", {}
+    rep = tw.eta(t, "replica")
+    fin = tw.eta(t, "finite")
+    explains = err <= 10.0 * spread ** 2 * e + bound
+    if abs(lib - rep) <= 1e-3 * e and abs(fin - refv) <= 0.1 * e \
+            and e > 10 * epsrel * abs(refv) and explains:
+        return "inf-tail-quad-glitch", {
+            "t": t, "eta_err": e, "lib_minus_replica": abs(lib - rep),
+            "finite_tail_minus_ref": abs(fin - refv)}
+    return "closed-form-deviation", {}
+
+
 def run_commuting(case):
     import oqupy
     g = _gen_commuting(case)
@@ -275,12 +311,20 @@ def run_commuting(case):
         err = float(errs.max())
         if not err <= bound:
             k = int(np.argmax(errs))
+            mech, evidence = "closed-form-deviation", {}
+            if p["cutoff_type"] != "hard" and not scanned:
+                mech, evidence = _attribute_to_tail_glitch(
+                    corr, p, g["epsrel"], dt, nsteps, tau, spread, err, bound)
             violations.append({
                 "what": f"state at step {k} deviates from closed form by "
-                        f"{errs[k]:.3e} > bound {bound:.3e}",
-                "mechanism": "closed-form-deviation",
+                        f"{errs[k]:.3e} > bound {bound:.3e}"
+                        + (f" [eta({evidence['t']:.6g}) of this bath is off "
+                           f"by {evidence['eta_err']:.2e}: the library's "
+                           f"[cutoff, inf) quadrature]" if evidence else ""),
+                "mechanism": mech,
                 "detail": {"errs": errs, "bound": bound,
-                           "lib": states[k], "ref": ref[k]}})
+                           "lib": states[k], "ref": ref[k],
+                           "evidence": evidence}})
     cells = [f"shape:{s}" for s in counter.shapes]
     cells += ["T=0" if p["temperature"] == 0 else "T>0",
               "cutoff:" + p["cutoff_type"],
